@@ -6,6 +6,7 @@ import HttpcoreModel.Drv.Pool
 import HttpcoreModel.Drv.Est
 import HttpcoreModel.Drv.C15
 import HttpcoreModel.Drv.H2
+import HttpcoreModel.Drv.Unasync
 /-!
 Line-protocol driver: one case per input line, one answer per output line.
 First token selects the model function.  Imports model files only (no proofs, no Mathlib).
@@ -31,6 +32,7 @@ def dispatch (line : String) : String :=
     else if cmd = "h2win" then Drv.h2win args
     else if cmd = "h2goaway" then Drv.h2goaway args
     else if cmd = "h2recv" then Drv.h2recv args
+    else if cmd = "unasync" then Drv.unasyncCmd args
     else "bad-cmd"
 
 partial def loop (h : IO.FS.Stream) (out : IO.FS.Stream) : IO Unit := do
